@@ -607,6 +607,7 @@ func checkSortedKeys(c *Ctx, fn *ssa.Function, itemsF *types.Var) {
 	P := c.P
 	var rng *ssa.Range
 	var sortCall *ssa.Call
+	var sortedCell *ssa.Alloc // the captured key variable when the sort is sort.Slice with a closure
 	var app *ssa.Call
 	eachInstr(fn, func(ins ssa.Instruction) {
 		switch x := ins.(type) {
@@ -619,6 +620,19 @@ func checkSortedKeys(c *Ctx, fn *ssa.Function, itemsF *types.Var) {
 				n := calleeFullName(f)
 				if n == "sort.Ints" || n == "slices.Sort" || strings.HasPrefix(n, "slices.Sort[") {
 					sortCall = x
+				}
+				// sort.Slice(keys, func(i, j int) bool { return keys[i] < keys[j] }) on the key slice itself
+				if (n == "sort.Slice" || n == "sort.SliceStable") && len(x.Call.Args) == 2 {
+					if cell := ascendingLessOverCell(x.Call.Args[1]); cell != nil {
+						arg := x.Call.Args[0]
+						if mi, ok := arg.(*ssa.MakeInterface); ok {
+							arg = mi.X
+						}
+						if ld, ok := arg.(*ssa.UnOp); ok && ld.Op == token.MUL && ld.X == ssa.Value(cell) {
+							sortCall = x
+							sortedCell = cell
+						}
+					}
 				}
 			}
 			if b, ok := x.Call.Value.(*ssa.Builtin); ok && b.Name() == "append" {
@@ -676,7 +690,11 @@ func checkSortedKeys(c *Ctx, fn *ssa.Function, itemsF *types.Var) {
 			ok = false
 		}
 		// returned slice is the sorted one
-		if root(r.Results[0]) != root(sortCall.Call.Args[0]) && r.Results[0] != sortCall.Call.Args[0] {
+		if sortedCell != nil {
+			if ld, isLd := r.Results[0].(*ssa.UnOp); !isLd || ld.Op != token.MUL || ld.X != ssa.Value(sortedCell) {
+				ok = false
+			}
+		} else if root(r.Results[0]) != root(sortCall.Call.Args[0]) && r.Results[0] != sortCall.Call.Args[0] {
 			ok = false
 		}
 	}
@@ -798,4 +816,45 @@ func sliceOnlyAppended(v ssa.Value) (string, token.Pos) {
 		}
 	}
 	return "", token.NoPos
+}
+
+// ascendingLessOverCell: v is a function literal `func(i, j int) bool { return s[i] < s[j] }` over one captured
+// slice variable s; returns the variable's cell in the enclosing function.
+func ascendingLessOverCell(v ssa.Value) *ssa.Alloc {
+	mc, ok := v.(*ssa.MakeClosure)
+	if !ok || len(mc.Bindings) != 1 {
+		return nil
+	}
+	cell, ok := mc.Bindings[0].(*ssa.Alloc)
+	if !ok {
+		return nil
+	}
+	fn, ok := mc.Fn.(*ssa.Function)
+	if !ok || len(fn.Params) != 2 || len(fn.FreeVars) != 1 || len(fn.Blocks) != 1 {
+		return nil
+	}
+	rets := returnsOf(fn)
+	if len(rets) != 1 || len(rets[0].Results) != 1 {
+		return nil
+	}
+	cmp, ok := rets[0].Results[0].(*ssa.BinOp)
+	if !ok || cmp.Op != token.LSS {
+		return nil
+	}
+	elem := func(x ssa.Value, p *ssa.Parameter) bool {
+		ld, ok := x.(*ssa.UnOp)
+		if !ok || ld.Op != token.MUL {
+			return false
+		}
+		ia, ok := ld.X.(*ssa.IndexAddr)
+		if !ok || ia.Index != ssa.Value(p) {
+			return false
+		}
+		sl, ok := ia.X.(*ssa.UnOp)
+		return ok && sl.Op == token.MUL && sl.X == ssa.Value(fn.FreeVars[0])
+	}
+	if elem(cmp.X, fn.Params[0]) && elem(cmp.Y, fn.Params[1]) {
+		return cell
+	}
+	return nil
 }
